@@ -102,8 +102,16 @@ def _native_job(args):
     mod = importlib.import_module(modname)
     c = mod.CONTRACTS[idx]()
     out = []
+    seeds = list(seeds)
+    if getattr(c, 'special_floats', False):
+        seeds += [('special', 7000 + k) for k in range(40)]
     for s in seeds:
         try:
+            if isinstance(s, tuple):
+                r = run_native(c, inst, None, seed=s[1], special=True)
+                r['seed'] = f'special:{s[1]}'
+                out.append(r)
+                continue
             r = run_native(c, inst, model if s is None else None, seed=0 if s is None else s)
         except Exception:
             r = dict(pre_ok=False, failed=[], used={}, exc='native harness error: ' + traceback.format_exc(limit=6), harness_error=True)
@@ -405,7 +413,10 @@ def replay_file(path):
     if nr.get('how', '').startswith('random input seed='):
         seeds.append((None, int(nr['how'].split('=')[1])))
     for model, s in seeds:
-        r = run_native(c, d['inst'], model, seed=s)
+        if isinstance(s, str) and s.startswith('special:'):
+            r = run_native(c, d['inst'], None, seed=int(s.split(':')[1]), special=True)
+        else:
+            r = run_native(c, d['inst'], model, seed=s)
         print(f"replay {prop}.{name}.{d['obligation']} inst={d['inst']} seed={s}: pre_ok={r['pre_ok']} failed={r['failed']} exc={r['exc']}")
         if r['pre_ok'] and d['obligation'] in r['failed']:
             print(f'VIOLATION property={prop} replay={path}')
